@@ -67,10 +67,10 @@ P = {
          'iterduplicates and iterunique (carried-state loops) are proved with the hybrid rule: an inductive invariant pins previous / previous_yielded / prev_comp_ne as functions of the position and the rows emitted per iteration are proved to be exactly: duplicates emits row k (and once its predecessor) iff their keys are ==, unique emits a row iff its key differs from both neighbours; with keys contiguous (sorted) this is the partition by key multiplicity, in order.'
          ' Bounded stand-in for the rest: ' 'duplicates/unique/distinct/conflicts/isunique vs key-multiplicity reference for all small rectangular tables x key forms incl. header-only, zero-field.',
          TB + ' single key field, rectangular table; distinct / conflicts / compound keys are bounded only.', TECH_D),
- 'C11': (True, 'exploration',
-         'Every sort-backed operator x buffersize x cache x tempdir x config.sort_buffersize x presorted vs the default call; cache clause over (edit, iterate) histories with pull counting.'
-         ' Proved sub-claim (not what decides the property): ' 'the strategy arguments of sort are proved irrelevant for WHICH rows reach the merge (C05.iternocache: chunking conserves rows for every buffersize; buffersize=None = config default; cache published only after a complete pass; cache=False caches nothing); constructors of all sort-backed operators read nothing (C02).',
-         BNOTE + '', TECH_D),
+ 'C11': (True, 'proof',
+         'Wiring half, proved for 25 sort-backed constructors executed from the real AST with symbolic buffersize / tempdir / cache: every SortView reachable from the result carries exactly the caller\'s strategy arguments (no inner sort falls back to defaults), each sort is on the operator\'s own key and - for the joins - applied to the squared-up input; presorted=True inserts no sort (except where the operator must sort anyway); nothing is read at construction. Sort half (C05.iternocache): for every buffersize the same rows reach the merge (chunking conserves rows), buffersize=None = config default, the cache is published only after a complete pass, cache=False caches nothing, cache-backed generators own what they were handed.'
+         ' Bounded stand-in for the result-equality clause (same header, rows and order as the default call) and the cache histories: Every sort-backed operator x buffersize x cache x tempdir x config.sort_buffersize x presorted vs the default call; cache clause over (edit, iterate) histories with pull counting.',
+         TB + ' The k-way merge of the chunks (T5) is trusted / bounded, so equality of the ORDER of equal-key rows across strategies is decided by the bounded check only.', TECH_D),
  'C12': (True, 'proof',
          'asindices is proved with an inductive loop invariant for any number of selectors (indices in range) and exactly for 1-2 selectors; itercut, iterstack, iteraddfield, iteraddrownumbers, setheader/extendheader/pushheader are proved cell-exact per data row by the stateless-body rule for all tables, row lengths, indices and flags (one output row per input row, only the requested cells change, padding/trimming as documented, no IndexError); iterfieldconvert.transform_row proved per cell.'
          ' Bounded stand-in for the rest: ' 'Every field/row transform of the statement vs a cell-by-cell reference over positional tables with ragged rows, duplicate names, all selections and insertion indices.',
